@@ -327,7 +327,9 @@ func (k *c05bCase) observe() string {
 				// direct predicate: the expiry never lies past issue time + the effective maximum, counted from the issue
 				// time the HARNESS recorded (slack: 2 s for the second truncation inside CalculateTTL, 1 s because the
 				// harness notes the creation a moment after the manager did)
-				if max := k.effMax(le); max > 0 && !le.ExpireTime.IsZero() && le.ExpireTime.Sub(l.issue) > max+3*time.Second {
+				// (an expiry that is not in the future is not a granted lifetime: a forced expiry — lazy revocation — of a lease
+				// that was already overdue stamps "now", which lies past issue + maximum by construction)
+				if max := k.effMax(le); max > 0 && !le.ExpireTime.IsZero() && le.ExpireTime.After(time.Now().Add(2*time.Second)) && le.ExpireTime.Sub(l.issue) > max+3*time.Second {
 					viol = fmt.Sprintf("!VIOL:lease %d expires %s after issue, maximum %s#C05b:expiry-past-max", l.ord, le.ExpireTime.Sub(l.issue).Round(time.Second), max)
 				}
 			}
